@@ -116,6 +116,11 @@ var advTemplates = []advTemplate{
 	}},
 	{"string-rep", func(g *core.Tape) string { return `return #string.rep("x", ` + bigN(g) + `)` }},
 	{"string-rep-sep", func(g *core.Tape) string { return `return #string.rep("ab", ` + bigN(g) + `, "--")` }},
+	{"string-rep-empty", func(g *core.Tape) string {
+		a := []string{`""`, `""`, `"x"`}[g.Choose(3)]
+		b := []string{`""`, `"-"`, `""`}[g.Choose(3)]
+		return `return #string.rep(` + a + `, ` + bigN(g) + `, ` + b + `)`
+	}},
 	{"string-rep-rep", func(g *core.Tape) string { return `return #(("x"):rep(1e4):rep(` + bigN(g) + `))` }},
 	{"string-format-width", func(g *core.Tape) string {
 		return `return #string.format("%99d%99d%99d", 1, 2, 3):rep(` + bigN(g) + `)`
